@@ -1,10 +1,20 @@
 ENGINES = [
     {'name': 'X', 'path': 'lib/xworker.py', 'kind_free_text': 'CrossHair 0.0.110 symbolic execution of the real Python functions (z3 decides every branch), one OS process per condition, vacuity twin per condition, plain-CPython replay of every counterexample',
-     'serves_properties': ['C17']},
+     'serves_properties': ['C10', 'C17']},
 ]
 NOTES = ('Technique family: solver-based checking of the real code. Every result is bounded; bounds, stubs and '
          'assumptions are in evidence/<id>.json and DESIGN.md. Exit 2 of ./check = harness error (never a verdict).')
 CLAIMS = {
+    'C10': dict(
+        engine='X',
+        technique='symbolic fault plan (crash index, torn-write image) over the real _BobState persistence code on a stub POSIX file system; CrossHair+z3 decide crash points and operation sequences; bounded',
+        text='For every sequence of <= 2 (quick) / 3 (thorough) state-mutating API calls out of 16 kinds (incl. invocation boundaries and asynchronous sections), '
+             'a crash before every mutating file-system operation and every modelled power-loss image of not-fsynced files, a fresh _BobState starts without error '
+             'and holds exactly one saved snapshot that is not older than the last completed invocation; all state-file mutations happen while the lock is held; '
+             'a second instance is refused while the lock exists.',
+        design_ref='DESIGN.md section 4, C10',
+        note='Trusted: lib/symfs.py POSIX model (atomic rename, ordered metadata, unsynced data may be lost), torn images limited to full/none/6 prefix cuts/6 single-byte garbles. '
+             'Outside: sqlite build-id cache, Windows replacePath retry loop, real signals.'),
     'C17': dict(
         engine='X',
         technique='symbolic execution (CrossHair+z3) of Env.substitute/StringParser/IfExpression against an independent reference interpreter; bounded string length',
